@@ -20,6 +20,8 @@ pub enum Op {
     Dup,
     Sha1,
     Sha256,
+    /// SHA-256 integrity under *other* credentials than the ones the Sha1 / Sha256 operations use
+    Sha256Other,
     Fp,
     IntoOwned,
     Clone,
@@ -33,6 +35,7 @@ impl Op {
             Op::Dup => "dup".into(),
             Op::Sha1 => "sha1".into(),
             Op::Sha256 => "sha256".into(),
+            Op::Sha256Other => "sha256-other-credentials".into(),
             Op::Fp => "fp".into(),
             Op::IntoOwned => "into_owned".into(),
             Op::Clone => "clone".into(),
@@ -43,6 +46,7 @@ impl Op {
             "dup" => Op::Dup,
             "sha1" => Op::Sha1,
             "sha256" => Op::Sha256,
+            "sha256-other-credentials" => Op::Sha256Other,
             "fp" => Op::Fp,
             "into_owned" => Op::IntoOwned,
             "clone" => Op::Clone,
@@ -81,6 +85,8 @@ fn raw_pool() -> Vec<(u16, Vec<u8>)> {
 
 #[derive(Clone, Debug, Default)]
 struct Model {
+    /// the MESSAGE-INTEGRITY-SHA256 was added under the other credentials
+    sha256_other: bool,
     types: Vec<u16>,
     values: Vec<Vec<u8>>, // wire values of ordinary attributes, in order (sealing values unknown)
 }
@@ -131,6 +137,8 @@ pub fn check_ops_from(ctx: &mut Ctx, start: u8, ops: &[Op], creds: &RefCreds) {
     universe.extend(rpool.iter().map(|x| x.0));
     universe.extend_from_slice(&[MI, MI256, FP, 0x0001]);
     let icreds = imp::to_impl_creds(creds);
+    let creds_other = RefCreds::Short("the-other-credentials".into());
+    let icreds_other = imp::to_impl_creds(&creds_other);
     let w = || {
         let mut v = wit(ops, creds);
         v["start"] = json!(start);
@@ -194,7 +202,7 @@ pub fn check_ops_from(ctx: &mut Ctx, start: u8, ops: &[Op], creds: &RefCreds) {
                 }
                 Op::Dup => (false, "add duplicate".into()),
                 Op::Sha1 => (!model.sealed(), "add_message_integrity(Sha1)".into()),
-                Op::Sha256 => (!model.has(MI256) && !model.has(FP), "add_message_integrity(Sha256)".into()),
+                Op::Sha256 | Op::Sha256Other => (!model.has(MI256) && !model.has(FP), "add_message_integrity(Sha256)".into()),
                 Op::Fp => (!model.has(FP), "add_fingerprint".into()),
                 Op::IntoOwned | Op::Clone => (true, op.name()),
             };
@@ -224,6 +232,7 @@ pub fn check_ops_from(ctx: &mut Ctx, start: u8, ops: &[Op], creds: &RefCreds) {
                 },
                 Op::Sha1 => b.add_message_integrity(&icreds, IntegrityAlgorithm::Sha1),
                 Op::Sha256 => b.add_message_integrity(&icreds, IntegrityAlgorithm::Sha256),
+                Op::Sha256Other => b.add_message_integrity(&icreds_other, IntegrityAlgorithm::Sha256),
                 Op::Fp => b.add_fingerprint(),
                 Op::IntoOwned => {
                     b = b.into_owned();
@@ -257,6 +266,10 @@ pub fn check_ops_from(ctx: &mut Ctx, start: u8, ops: &[Op], creds: &RefCreds) {
                 }
                 (Ok(()), Op::Sha1) => model.types.push(MI),
                 (Ok(()), Op::Sha256) => model.types.push(MI256),
+                (Ok(()), Op::Sha256Other) => {
+                    model.types.push(MI256);
+                    model.sha256_other = true;
+                }
                 (Ok(()), Op::Fp) => model.types.push(FP),
                 _ => {}
             }
@@ -366,11 +379,26 @@ pub fn check_ops_from(ctx: &mut Ctx, start: u8, ops: &[Op], creds: &RefCreds) {
     if ord_vals != model.values {
         ctx.violation("C11", "serialisation-agrees-with-queries", "MessageBuilder::build", "values", w, "values as added".into(), "a value differs".into());
     }
-    let parsed = guard(|| Message::from_bytes(&bytes).map(|m| m.validate_integrity(&icreds).map_err(|e| format!("{e:?}"))));
+    // validation looks at the SHA-256 attribute when there is one: it was added under the other
+    // credentials in some sequences; each integrity attribute is correct under the credentials it was added with
+    let vcreds = if model.sha256_other { &icreds_other } else { &icreds };
+    let parsed = guard(|| Message::from_bytes(&bytes).map(|m| m.validate_integrity(vcreds).map_err(|e| format!("{e:?}"))));
     match parsed {
         Ok(Ok(v)) => {
             ctx.count("final-state-parsed");
-            let ri = ref_integrity(&bytes, &rp.attrs, creds);
+            let ri = {
+                let a = ref_integrity(&bytes, &rp.attrs, creds);
+                if model.sha256_other {
+                    let b = ref_integrity(&bytes, &rp.attrs, &creds_other);
+                    // MI judged under `creds`, MI-SHA256 under the other ones
+                    RefIntegrity { attrs: a.attrs.iter().zip(b.attrs.iter()).map(|(x, y)| if x.1 == MI256 { *y } else { *x }).collect() }
+                } else {
+                    a
+                }
+            };
+            if model.sha256_other {
+                ctx.count("final-state-with-two-credentials");
+            }
             let has_int = model.has(MI) || model.has(MI256);
             if has_int && (!ri.all_correct() || v.is_err()) {
                 ctx.violation(
@@ -400,7 +428,7 @@ pub fn check_ops_from(ctx: &mut Ctx, start: u8, ops: &[Op], creds: &RefCreds) {
 }
 
 fn alphabet() -> Vec<Op> {
-    vec![Op::Typed(0), Op::Typed(1), Op::Typed(2), Op::Raw(0), Op::Raw(24), Op::Dup, Op::Sha1, Op::Sha256, Op::Fp, Op::IntoOwned, Op::Clone]
+    vec![Op::Typed(0), Op::Typed(1), Op::Typed(2), Op::Raw(0), Op::Raw(24), Op::Dup, Op::Sha1, Op::Sha256, Op::Sha256Other, Op::Fp, Op::IntoOwned, Op::Clone]
 }
 
 pub fn run(ctx: &mut Ctx) {
@@ -415,6 +443,10 @@ pub fn run(ctx: &mut Ctx) {
         for code in 0..total {
             idx += 1;
             if !ctx.mine(idx) {
+                continue;
+            }
+            // quick tier: complete to length 5, every 5th sequence of length 6
+            if quick && len == 6 && (code / ctx.nshards) % 5 != ctx.seed % 5 {
                 continue;
             }
             let mut c = code;
@@ -468,7 +500,13 @@ pub fn run(ctx: &mut Ctx) {
                 8..=13 => Op::Raw(rng.below(33) as u8),
                 14 => Op::Dup,
                 15 => Op::Sha1,
-                16 => Op::Sha256,
+                16 => {
+                    if rng.chance(1, 3) {
+                        Op::Sha256Other
+                    } else {
+                        Op::Sha256
+                    }
+                }
                 17 => Op::Fp,
                 18 => Op::IntoOwned,
                 _ => Op::Clone,
@@ -476,7 +514,7 @@ pub fn run(ctx: &mut Ctx) {
         }
         // keep the seals towards the end so that long unsealed prefixes exist
         if rng.chance(2, 3) {
-            let (mut a, mut s): (Vec<Op>, Vec<Op>) = ops.iter().partition(|o| !matches!(o, Op::Sha1 | Op::Sha256 | Op::Fp));
+            let (mut a, mut s): (Vec<Op>, Vec<Op>) = ops.iter().partition(|o| !matches!(o, Op::Sha1 | Op::Sha256 | Op::Sha256Other | Op::Fp));
             let k = a.len().saturating_sub(rng.usize(4));
             let tail: Vec<Op> = a.split_off(k);
             a.append(&mut s);
